@@ -276,7 +276,7 @@ package kubeeventsmanager
 //@ trusted func (*resourceInformer).start
 //@   modifies nothing
 
-//@ func (*monitor).Start$[m]
+//@ func (*monitor).Start$1
 //@   prop C02
 //@   requires m != nil && forall(j, 0, len(value), value[j] != nil)
 //@   requires [assumed:informers-of-a-namespace-are-distinct] forall(i, 0, len(value), forall(j, 0, len(value), i != j ==> value[i] != value[j]))
